@@ -157,7 +157,7 @@ def families(tier):
     fams = [Family(
         name="two", fn="tpl_two", params=["size", "n1", "n2", "r1", "t", "other"],
         pre=["size >= -1", "0 <= n1 <= 3", "0 <= n2 <= 3", "r1 >= 0", "t >= 0", "0 <= other <= 1", "other == 0 or (n1 == 3 and t >= 4)"],
-        parts=parts_product(n1=range(4), n2=range(4)),
+        parts=[q for p in parts_product(n1=range(4), n2=range(4)) for q in ([p + ["other == 0"], p + ["other == 1"]] if "n1 == 3" in p else [p + ["other == 0"]])],
         twin_args=[2, 2, 2, 0, 0, 0],
     )]
     fams.append(Family(
